@@ -1361,6 +1361,57 @@ fn check_cache(seed: u64) -> i32 {
     0
 }
 
+/// C06 on arbitrary (nested) models: the request bounds are used as black boxes (their queries are checked elsewhere) and the
+/// analyses are compared with the exhaustive all-offsets evaluation over those black boxes
+fn check_analyses_any(seed: u64) -> i32 {
+    let mut r = Rng(seed ^ 0xa27a27);
+    for _ in 0..500 {
+        let n = r.below(3) as usize;
+        let mut descs = vec![]; let mut hps: Vec<RBF<Box<dyn ArrivalBound>, Box<dyn JobCostModel>>> = vec![];
+        for _ in 0..n { let (ab, da) = mk_ab_nested(&mut r, 1); let (cm, dc) = mk_cm(&mut r); descs.push(format!("{} x {}", da, dc)); hps.push(RBF::new(ab, cm)); }
+        let (ab0, d0) = loop { let x = mk_ab_nested(&mut r, 1); if x.0.number_arrivals(d(1)) > 0 { break x; } };
+        let (cm0, dc0) = mk_cm(&mut r);
+        let tua = RBF::new(ab0, cm0);
+        let limit = 1 + r.below(90); let b = r.below(4);
+        let tua_f = |x: u64| us(tua.service_needed(d(x)));
+        let hp_f = |x: u64| hps.iter().map(|h| us(h.service_needed(d(x)))).sum::<u64>();
+        let mut desc = format!("{{\"tua\": \"{} x {}\", \"others\": {:?}, \"blocking\": {}, \"limit\": {}}}", d0, dc0, descs, b, limit);
+        macro_rules! cmp { ($name:expr, $got:expr, $exp:expr) => {{
+            let got = view(&guarded(|| $got)); let exp = $exp;
+            if got != Ok(exp) { return fail($name, desc.clone(), format!("{:?}", got), format!("{:?}", exp)); }
+        }}}
+        cmp!("fixed_priority::fully_preemptive::dedicated_uniproc_rta", fixed_priority::fully_preemptive::dedicated_uniproc_rta(&tua, &hps, d(limit)), fpx(&tua_f, &hp_f, 0, 0, limit));
+        cmp!("fixed_priority::floating_nonpreemptive::dedicated_uniproc_rta",
+             fixed_priority::floating_nonpreemptive::dedicated_uniproc_rta(&fixed_priority::floating_nonpreemptive::TaskUnderAnalysis { rbf: &tua, blocking_bound: s(b) }, &hps, d(limit)), fpx(&tua_f, &hp_f, b, 0, limit));
+        let tot = |x: u64| tua_f(x) + hp_f(x);
+        let exp = dscan(limit, &|x| tot(x)).map(|l| (0..l).map(|a| tot(a + 1).saturating_sub(a)).max().unwrap_or(0));
+        {
+            // FIFO takes one request bound: the task under analysis is simply the last element
+            let all: Vec<&RBF<Box<dyn ArrivalBound>, Box<dyn JobCostModel>>> = hps.iter().chain(std::iter::once(&tua)).collect();
+            cmp!("fifo::dedicated_uniproc_rta", fifo::dedicated_uniproc_rta(&demand::Slice::of(&all), d(limit)), exp);
+        }
+        let dl0 = 1 + r.below(40);
+        let dls: Vec<u64> = hps.iter().map(|_| 1 + r.below(40)).collect();
+        let segs: Vec<u64> = hps.iter().map(|_| 1 + r.below(4)).collect();
+        let exp_fl = (|| {
+            let k = dls.len();
+            let l = dscan(limit, &|x| hp_f(x) + tua_f(x))?;
+            let mut best = 0u64;
+            for a in 0..l {
+                let blk = (0..k).filter(|&i| dls[i] > dl0 + a && us(hps[i].service_needed(d(1))) > 0).map(|i| segs[i].saturating_sub(1)).max().unwrap_or(0);
+                let af = dscan(limit, &|x| blk + tua_f(a + 1) + (0..k).map(|i| us(hps[i].service_needed(d(x.min((a + 1 + dl0).saturating_sub(dls[i])))))).sum::<u64>())?;
+                best = best.max(af.saturating_sub(a));
+            }
+            Some(best)
+        })();
+        desc = format!("{{\"tua\": \"{} x {}\", \"deadline\": {}, \"others\": {:?}, \"deadlines\": {:?}, \"segments\": {:?}, \"limit\": {}}}", d0, dc0, dl0, descs, dls, segs, limit);
+        let fl_others: Vec<_> = hps.iter().zip(dls.iter()).zip(segs.iter()).map(|((rb, dl), sg)| edf::floating_nonpreemptive::InterferingTask { rbf: rb, deadline: d(*dl), max_np_segment: s(*sg) }).collect();
+        cmp!("edf::floating_nonpreemptive::dedicated_uniproc_rta",
+             edf::floating_nonpreemptive::dedicated_uniproc_rta(&edf::floating_nonpreemptive::TaskUnderAnalysis { rbf: &tua, deadline: d(dl0) }, &fl_others, d(limit)), exp_fl);
+    }
+    0
+}
+
 pub fn search(obligation: &str, seed: u64) -> i32 {
     let o = obligation;
     let mut ran = false;
@@ -1368,7 +1419,7 @@ pub fn search(obligation: &str, seed: u64) -> i32 {
     let mut rc = 0;
     if let Some(cat) = o.strip_prefix("cat:") {
         rc = match cat { "supply" => run(check_supply), "fixed_point" => run(check_fixed_point), "arrival" => run(check_arrival), "steps" => run(check_steps),
-                         "wcet_demand" => run(check_wcet_demand), "analyses" => { let rc = run(check_analyses); if rc == 0 { run(check_analyses_tab) } else { rc } }, "ros2" => { let rc = run(check_ros2); if rc == 0 { run(check_ros2_tab) } else { rc } }, "ros2_all_scalar" => run(check_ros2_all_scalar), "ros2_bw_all" => run(check_ros2_bw_all), "ros2_mono" => run(check_ros2_mono), "coincide" => run(check_coincide), "totality" => run(check_totality), "queries" => run(check_queries), "cache" => run(check_cache), "ros2_all_multiframe" => run(check_ros2_all_multiframe), _ => 3 };
+                         "wcet_demand" => run(check_wcet_demand), "analyses" => { let rc = run(check_analyses); if rc == 0 { run(check_analyses_tab) } else { rc } }, "ros2" => { let rc = run(check_ros2); if rc == 0 { run(check_ros2_tab) } else { rc } }, "ros2_all_scalar" => run(check_ros2_all_scalar), "ros2_bw_all" => run(check_ros2_bw_all), "ros2_mono" => run(check_ros2_mono), "coincide" => run(check_coincide), "totality" => run(check_totality), "queries" => run(check_queries), "cache" => run(check_cache), "analyses_any" => run(check_analyses_any), "ros2_all_multiframe" => run(check_ros2_all_multiframe), _ => 3 };
     }
     else if o.contains("src/arrival/steps") || o.contains("src/arrival/dmin") || o.contains("arrival_curve_prefix") { rc = run(check_steps); }
     else if o.contains("src/supply/") { rc = run(check_supply); if rc == 0 { rc = run(check_fixed_point); } }
